@@ -247,7 +247,10 @@ def run(repo: Repo, rep: Report, tier: str) -> None:
         if bad_uses:
             rep.violation("R05.3", BUILD, f"field block dereferences d through {sorted(bad_uses)}", "only d.get(...) fails with AttributeError on a non-mapping")
     # ---- R05.3z a dataclass without (init) fields: is the argument checked at all?
-    _fieldless(repo, rep)
+    try:
+        _fieldless(repo, rep)
+    except Undecided as e:
+        rep.undecide("R05.3z", str(e))
 
     # ---- R05.6 type-match eligible (fallback) unpackers must depend on the input
     n6 = 0
